@@ -241,4 +241,25 @@ NoCollateral(B, A, ws) ==          \* B, A : sequences of token uids before / af
   IN /\ SelectSeq(A, LAMBDA x : x \in Out) = SelectSeq(B, LAMBDA x : x \in Out)
      /\ Range(B) \ Range(A) \subseteq U
      /\ Range(A) \ Range(B) \subseteq Ins
+
+(***************************************************************************)
+(* The name written after 'end block' / 'end process' is the label of the  *)
+(* statement it closes (C01: "the optional keyword and MATCHING name after *)
+(* 'end'"; a name that merely occurs earlier in the file is not enough).   *)
+(* c: normalised values of the code tokens of the whole list.  A forward   *)
+(* scan keeps the stack of labels of the open statements of keyword kw     *)
+(* (0 = no label); at every 'end kw n ;' the name n must be the top.       *)
+(***************************************************************************)
+EndNamesMatch(c, kw) ==
+  LET step(acc, i) ==
+        IF c[i] # kw THEN acc
+        ELSE IF (i > 1 /\ c[i - 1] = W_END) \/ (i > 2 /\ c[i - 1] = W_POSTPONED /\ c[i - 2] = W_END)
+             THEN LET top == IF acc.st = <<>> THEN 0 ELSE acc.st[Len(acc.st)]
+                      named == i + 2 <= Len(c) /\ c[i + 2] = W_SEMI          \* end kw NAME ;
+                  IN [st |-> IF acc.st = <<>> THEN acc.st ELSE SubSeq(acc.st, 1, Len(acc.st) - 1),
+                      ok |-> acc.ok /\ (~named \/ acc.st = <<>> \/ top = 0 \/ c[i + 1] = top)]
+             ELSE LET j == IF i > 1 /\ c[i - 1] = W_POSTPONED THEN i - 1 ELSE i
+                  IN [st |-> Append(acc.st, IF j > 2 /\ c[j - 1] = W_COLON THEN c[j - 2] ELSE 0), ok |-> acc.ok]
+      r == FoldLeft(step, [st |-> <<>>, ok |-> TRUE], [i \in 1..Len(c) |-> i])
+  IN r.ok
 =============================================================================
